@@ -194,7 +194,10 @@ writers never juxtapose as the end of one push and the start of the next, with t
 * `/`·`/`: after `/` comes an expression; `//` is pushed as one string;
 * `-`·`>`: after `-` comes an expression; `->` is pushed inside `)->`;
 * `[`·`=`: after `[` comes an expression or a long string, which starts with `[`
-  (handled by `break_long_string`).
+  (handled by `break_long_string`);
+* `.`·`=` is listed for the token `..` followed by `=` (would read `..=`): after `..` comes an
+  expression. After the token `...` the pair does occur (`...==x`) and is harmless: every lexer
+  takes `...` first.
 The harness also searches every real trace for these pairs at push boundaries. -/
 def neverJuxtaposed : List (Nat × Nat) :=
   [(61, 61), (126, 61), (60, 61), (58, 58), (47, 47), (45, 62), (91, 61),
